@@ -313,6 +313,8 @@ def _sym_of(e, env, w):
                 return w.slots[slot]["out"]
         if isinstance(b, ast.Subscript) and isinstance(b.value, ast.Name) and const_number(b.slice) == -1:
             v = env.get(b.value.id)
+            if isinstance(v, tuple) and v[0] == "locallist" and v[1]:
+                return v[1][-1]["out"]
             if isinstance(v, tuple) and v[0] == "blocklist":
                 return ("lastdeg", b.value.id)
     if isinstance(e, ast.Attribute) and attr_chain(e) == "self.degrees":
@@ -360,6 +362,8 @@ def extract_wiring(p, cls):
                 s = _sym_of(v, env, w)
                 if s is not None:
                     env[t.id] = s
+                    if isinstance(v, ast.Name) and isinstance(s, tuple) and s[0] == "blocklist":
+                        env.setdefault("#alias", {})[t.id] = env.get("#alias", {}).get(v.id, v.id)
                 elif isinstance(v, ast.IfExp) and all(isinstance(p.resolve_expr(cls.module, b), ClassInfo) for b in (v.body, v.orelse) if isinstance(b, (ast.Name, ast.Attribute))) and all(isinstance(b, (ast.Name, ast.Attribute)) for b in (v.body, v.orelse)):
                     # X = A if c else B : constructor selection
                     for b in (v.body, v.orelse):
@@ -368,6 +372,7 @@ def extract_wiring(p, cls):
                     env[t.id] = ("blocklist", None)
                 elif isinstance(v, ast.Name) and isinstance(env.get(v.id), tuple):
                     env[t.id] = env[v.id]
+                    env.setdefault("#alias", {})[t.id] = env.get("#alias", {}).get(v.id, v.id)
                 else:
                     r = p.resolve_expr(cls.module, v) if isinstance(v, (ast.Name, ast.Attribute)) else None
                     if isinstance(r, ClassInfo):
@@ -402,7 +407,7 @@ def extract_wiring(p, cls):
                             if isinstance(rr, tuple):
                                 w.ext[slot + "[*]"] = rr[1]
                         elif isinstance(a, ast.Name) and isinstance(env.get(a.id), tuple) and env[a.id][0] == "blocklist":
-                            w.chain = dict(env[a.id][1] or {}, slot=slot, listvar=a.id)
+                            w.chain = dict(env[a.id][1] or {}, slot=slot, listvar=env.get("#alias", {}).get(a.id, a.id))
                     elif dotted and dotted.startswith("torch.nn."):
                         w.ext[slot] = dotted
                 elif isinstance(v, ast.Name) and v.id in {a for a, _ in init.params()}:
@@ -526,7 +531,27 @@ def extract_wiring(p, cls):
         if lst.startswith("self."):
             w.chain = dict(info, slot=lst[5:], listvar=lst)
 
-    walk(init.node.body, env)
+    # helper calls of the constructor are written out first (private methods of the class, module-level factories)
+    from ..inline import write_out_helpers
+    from ..model import FuncInfo
+
+    def resolve(call):
+        f = call.func
+        if isinstance(f, ast.Attribute) and isinstance(f.value, ast.Name) and f.value.id in ("self", "cls", cls.name) and f.attr.startswith("_") and not f.attr.startswith("__"):
+            m = cls.lookup_method(f.attr)
+            if m is not None and not any(f.attr in sub.methods for sub in cls.all_subclasses() if sub is not cls):
+                return (m.node, not m.is_static)
+        if isinstance(f, ast.Name) and f.id.startswith("_"):
+            r = p.resolve_expr(cls.module, f)
+            if isinstance(r, FuncInfo) and r.cls is None:
+                return (r.node, False)
+        return None
+
+    try:
+        body = write_out_helpers(copy.deepcopy(init.node.body), resolve)
+    except Exception:
+        body = init.node.body
+    walk(body, env)
     w.env = env
     return w
 
@@ -569,7 +594,7 @@ def _is_not_all_ge(t, w):
     l, r = norm_text(inner.left), norm_text(inner.comparators[0])
     op = type(inner.ops[0])
     decl = {"self.degrees"}
-    if w.declared and w.declared.startswith("deg(") :
+    if isinstance(w.declared, str) and w.declared.startswith("deg("):
         decl.add(w.declared[4:-1] + ".degrees")
         decl.add("self.linear_layers[-1].degrees")
 
